@@ -418,7 +418,11 @@ func VerifC14Ops() {
 		case 1:
 			_, opErr = w.orc.Pipelines.Create(ctx, pipeline.Config{Name: "p1"}) // duplicate name
 		case 2:
-			_, opErr = w.orc.Pipelines.Update(ctx, pl.ID, pipeline.Config{Name: "p1-renamed", Description: "new"})
+			name := "p1-renamed"
+			if verifBool("keepName") {
+				name = "p1" // a description-only update
+			}
+			_, opErr = w.orc.Pipelines.Update(ctx, pl.ID, pipeline.Config{Name: name, Description: "new"})
 		case 3:
 			_, opErr = w.orc.Pipelines.Update(ctx, pl.ID, pipeline.Config{Name: "p2"}) // name taken
 		case 4:
